@@ -18,3 +18,60 @@ Proof.
   split; [reflexivity|]. intros m H. pose proof (eql_nth _ _ 0%nat H) as E.
   vm_compute in E. discriminate E.
 Qed.
+
+(* ---------------------------------------------------------------- the metric classes of 0.6.0
+
+   Faithful wrapper facts of four classes as they are in the unchanged tree (hand-copied; the
+   regenerated table is GenWrap.v, and the correspondence run checks that the real classes behave
+   as `class_call` predicts from the regenerated facts).  Each violates "the class returns what the
+   function returns with the same options". *)
+Require Import SkV.C06.Wrap.
+From Coq Require Import String.
+Open Scope string_scope.
+
+Definition mase_060 := mkwrapper "MeanAbsoluteScaledError" "mean_absolute_scaled_error"
+  ["sp"] [("sp", FromArg "sp")] false [].
+Definition mase_sig := mkfsig "mean_absolute_scaled_error" ["sp"] ["y_train"].
+
+(* F-C06-1 / F-C06-2: the extra series cannot be passed, and without it the function refuses *)
+Theorem class_cannot_receive_series_refuted :
+  class_call mase_060 mase_sig ["y_train"] = TypeErr /\ class_call mase_060 mase_sig [] = TypeErr /\
+  wrapper_ok mase_060 mase_sig = false.
+Proof. repeat split; reflexivity. Qed.
+
+Definition masym_060 := mkwrapper "MeanAsymmetricError" "mean_asymmetric_error"
+  ["asymmetric_threshold"; "left_error_function"; "right_error_function"]
+  [("asymmetric_threshold", FromArg "asymmetric_threshold");
+   ("left_error_function", FromArg "left_error_function");
+   ("right_error_function", FromArg "right_error_function")] false
+  [("asymmetric_threshold", "asymmetric_treshold"); ("left_error_function", "left_error_function");
+   ("right_error_function", "right_error_function")].
+Definition masym_sig := mkfsig "mean_asymmetric_error"
+  ["asymmetric_threshold"; "left_error_function"; "right_error_function"] [].
+
+(* F-C06-3 *)
+Theorem asymmetric_class_attribute_typo_refuted :
+  class_call masym_060 masym_sig [] = AttrErr /\ wrapper_ok masym_060 masym_sig = false.
+Proof. split; reflexivity. Qed.
+
+Definition relloss_060 := mkwrapper "RelativeLoss" "relative_loss" ["relative_loss_function"]
+  [("relative_loss_function", FromArg "relative_loss_function")] false
+  [("loss_function", "_relative_func")].
+Definition relloss_sig := mkfsig "relative_loss" ["relative_loss_function"] ["y_pred_benchmark"].
+
+(* F-C06-4 *)
+Theorem relative_loss_class_refuted :
+  class_call relloss_060 relloss_sig [] = AttrErr /\
+  class_call relloss_060 relloss_sig ["y_pred_benchmark"] = TypeErr /\
+  wrapper_ok relloss_060 relloss_sig = false.
+Proof. repeat split; reflexivity. Qed.
+
+Definition msse_060 := mkwrapper "MeanSquaredScaledError" "mean_squared_scaled_error"
+  ["sp"; "square_root"] [("sp", Fixed); ("square_root", FromArg "square_root")] false
+  [("square_root", "square_root")].
+Definition msse_sig := mkfsig "mean_squared_scaled_error" ["sp"; "square_root"] ["y_train"].
+
+(* F-C06-5: sp is replaced by a constant in the constructor (and is not forwarded either) *)
+Theorem msse_class_drops_sp_refuted :
+  lookup "sp" (w_attrs msse_060) = Some Fixed /\ wrapper_ok msse_060 msse_sig = false.
+Proof. split; reflexivity. Qed.
